@@ -362,6 +362,9 @@ type PreparedStatementFieldTracker struct {
 	// shared value that indicates number of param packet
 	paramsCounter int
 	columnsNum    uint16
+	// numbers of definitions to expect when the blocks are not terminated with EOF packets (CLIENT_DEPRECATE_EOF)
+	paramsNum      uint16
+	columnsCounter int
 }
 
 // NewPreparedStatementFieldTracker create new PreparedStatementFieldTracker
@@ -369,6 +372,27 @@ func NewPreparedStatementFieldTracker(handler *Handler, columnNum uint16) Prepar
 	return PreparedStatementFieldTracker{
 		proxyHandler: handler,
 		columnsNum:   columnNum,
+	}
+}
+
+// NewPreparedStatementFieldTrackerWithParams create new PreparedStatementFieldTracker that knows how many parameter
+// definitions precede the column definitions: with CLIENT_DEPRECATE_EOF no EOF packet marks the end of a block
+func NewPreparedStatementFieldTrackerWithParams(handler *Handler, paramsNum, columnNum uint16) PreparedStatementFieldTracker {
+	return PreparedStatementFieldTracker{
+		proxyHandler: handler,
+		columnsNum:   columnNum,
+		paramsNum:    paramsNum,
+	}
+}
+
+// afterParams chooses the handler of what follows the block of parameter definitions
+func (p *PreparedStatementFieldTracker) afterParams() {
+	// if columns_num > 0 column definition block will follow
+	// https://dev.mysql.com/doc/internals/en/com-stmt-prepare-response.html
+	if p.columnsNum > 0 {
+		p.proxyHandler.setQueryHandler(p.ColumnsTrackHandler)
+	} else {
+		p.proxyHandler.setQueryHandler(p.proxyHandler.QueryResponseHandler)
 	}
 }
 
@@ -387,13 +411,7 @@ func (p *PreparedStatementFieldTracker) ParamsTrackHandler(ctx context.Context, 
 	if packet.IsEOF() {
 		p.proxyHandler.logger.Debugln("ParamsTrackHandler EOF", "column_num", p.columnsNum, "stmt_id", p.proxyHandler.protocolState.GetStmtID())
 
-		// if columns_num > 0 column definition block will follow
-		// https://dev.mysql.com/doc/internals/en/com-stmt-prepare-response.html
-		if p.columnsNum > 0 {
-			p.proxyHandler.setQueryHandler(p.ColumnsTrackHandler)
-		} else {
-			p.proxyHandler.setQueryHandler(p.proxyHandler.QueryResponseHandler)
-		}
+		p.afterParams()
 
 		if _, err := clientConnection.Write(packet.Dump()); err != nil {
 			p.proxyHandler.logger.WithError(err).WithField(logging.FieldKeyEventCode, logging.EventCodeErrorNetworkWrite).
@@ -418,13 +436,19 @@ func (p *PreparedStatementFieldTracker) ParamsTrackHandler(ctx context.Context, 
 		}
 	}
 
+	p.paramsCounter++
+	// without EOF packets the block ends with its last definition (the handler of what follows is chosen
+	// before the packet is written)
+	if p.proxyHandler.Capabilities.IsClientDeprecateEOF() && p.paramsNum > 0 && p.paramsCounter >= int(p.paramsNum) {
+		p.afterParams()
+	}
+
 	if _, err := clientConnection.Write(field.Dump()); err != nil {
 		p.proxyHandler.logger.WithError(err).WithField(logging.FieldKeyEventCode, logging.EventCodeErrorNetworkWrite).
 			Debugln("Can't proxy output")
 		return err
 	}
 
-	p.paramsCounter++
 	return nil
 }
 
@@ -459,6 +483,12 @@ func (p *PreparedStatementFieldTracker) ColumnsTrackHandler(ctx context.Context,
 	updateFieldEncodedType(field, p.proxyHandler.setting.TableSchemaStore())
 
 	p.proxyHandler.protocolState.AddColumnDescription(field)
+
+	p.columnsCounter++
+	if p.proxyHandler.Capabilities.IsClientDeprecateEOF() && p.columnsCounter >= int(p.columnsNum) {
+		// without EOF packets the block ends with its last definition; see the EOF branch above
+		p.proxyHandler.setQueryHandler(p.proxyHandler.QueryResponseHandler)
+	}
 
 	if _, err := clientConnection.Write(field.Dump()); err != nil {
 		p.proxyHandler.logger.WithError(err).WithField(logging.FieldKeyEventCode, logging.EventCodeErrorNetworkWrite).
